@@ -111,6 +111,9 @@ def _parent_cmp(a, o):
     if a[0] == "call" and re.search(r"PartialEq::(ne|eq)$", a[1]):
         x, y = a[2]
         if (x == PARENT) != (y == PARENT):
+            other = y if x == PARENT else x
+            if (other[0] == "K" and "NIL_VERSION_ID" in str(other[1])) or (other[0] == "C" and other[2].endswith("::nil")) or other[0] == "K":
+                return None   # the parent compared with a constant says nothing about the stored latest
             isne = a[1].endswith("::ne")
             eq = (not o) if isne else bool(o)
             return "equal" if eq else "differs"
@@ -1091,3 +1094,23 @@ def rule_P5(F, R):
         R.violation("P5", k, "chain-state-in-handle:%s" % bad[0][0], "LocalServer keeps `%s: %s` between calls: a second handle on the same directory changes the chain without this one noticing" % bad[0], loc(a["sp"]))
     else:
         R.ok("P5", "LocalServer fields: %s" % [f["name"] for f in a["variants"][0]["fields"]], loc(a["sp"]))
+
+
+def rule_GC6(F, R):
+    R.begin("GC6", "git backend: a rejection (ExpectedParentVersion) names the latest version of the shared remote, not of this clone's cache: every rejection in add_version is preceded by a fetch of the remote and a reload of the metadata. A rejection from the cache alone refuses a version whose parent is the true latest (pushed by another clone) and names a stale id")
+    ms = impl_methods(F)
+    b = ms.get(("git", "add_version"))
+    if b is None:
+        R.missing("GC6", "git add_version")
+        return
+    c = cfg_of(b)
+    fetchers = {roles.norm(x) for x in roles.git_cmd_fns(F, "fetch")}
+    fetch_calls = [i for i, t in c.calls() if any(_cone_has(F, n_, fetchers) for n_ in call_names(t))]
+    sites = agg_sites(c, "AddVersionResult", "ExpectedParentVersion")
+    if not R.floor("GC6", "ExpectedParentVersion constructions in git add_version", len(sites), 1):
+        return
+    for (i, j, st) in sites:
+        if any(c.dominates(k, i) for k in fetch_calls):
+            R.ok("GC6", "rejection only after the remote was fetched", where(b, sp=st["sp"]))
+        else:
+            R.violation("GC6", b["owner_fn"], "rejection-from-cached-latest", "add_version can answer ExpectedParentVersion from the cached latest version without fetching the remote: a version whose parent is the remote's true latest is refused, and the id named is stale", where(b, sp=st["sp"]))
